@@ -119,7 +119,7 @@ def random_cases(draw):
 
 
 def tiny_cases():
-    for g in games.tiny_reach_games():
+    for g in list(games.tiny_reach_games()) + list(games.dup_edge_games()):
         for route in ("component", "pipeline", "assigned"):
             yield dict(game=g, route=route)
 
